@@ -148,8 +148,8 @@ PROPS = {
     },
     "C07": {
         "streams": ["addr"],
-        "theorems": "C07_git_grammar_accepted, C07_archive_by_suffix_accepted, C07_archive_by_argument_accepted (converse direction); C07_parse_remote_policy, C07_make_remote_source_policy, C07_parse_remote_package_policy, C07_parse_source_policy, C07_parse_final_source_policy (every accepted string / triple on every route satisfies the independent policy predicate), C07_query_normal_form (parse_query o encode_query = stable sort, all argument lists; escaping round trip by a sweep over all 256 byte values)",
-        "assumptions": _ADDR_ASSUME + ["the converse direction is proved for the three documented shapes with explicit parts (C07_git_grammar_accepted, C07_archive_by_suffix_accepted, C07_archive_by_argument_accepted, any letter case); the github.com / gitlab.com shorthands are covered by instances and by the per-run grammar generator with its must-accept oracle, not by a general theorem"],
+        "theorems": "C07_git_grammar_accepted, C07_archive_by_suffix_accepted, C07_archive_by_argument_accepted, C07_shorthand_accepted (converse direction: the three documented shapes in any letter case, and the github.com / gitlab.com shorthand for every organisation, repository and sub-path of plain names); C07_parse_remote_policy, C07_make_remote_source_policy, C07_parse_remote_package_policy, C07_parse_source_policy, C07_parse_final_source_policy (every accepted string / triple on every route satisfies the independent policy predicate), C07_query_normal_form (parse_query o encode_query = stable sort, all argument lists; escaping round trip by a sweep over all 256 byte values)",
+        "assumptions": _ADDR_ASSUME + ["the converse direction is proved for the three documented shapes with explicit parts (any letter case) and for the shorthand with plain names (characters URL escaping leaves alone); addresses outside those shapes (escapes in the path, unusual query arguments) are covered by the per-run grammar generator with its must-accept oracle"],
     },
     "C18": {
         "streams": ["manifest"],
